@@ -19,3 +19,17 @@ def boolStr (b : Bool) : String := if b then "1" else "0"
 def joinSp (xs : List String) : String := " ".intercalate xs
 
 end Mitum
+
+namespace Mitum
+
+/-- insertion into a list sorted by `le` (structural, so `decide` can evaluate it) -/
+def insertBy {α : Type} (le : α → α → Bool) (x : α) : List α → List α
+  | [] => [x]
+  | y :: ys => if le x y then x :: y :: ys else y :: insertBy le x ys
+
+/-- insertion sort; used wherever the Go code calls `sort.Slice` on totally ordered keys -/
+def sortBy {α : Type} (le : α → α → Bool) : List α → List α
+  | [] => []
+  | x :: xs => insertBy le x (sortBy le xs)
+
+end Mitum
